@@ -53,6 +53,8 @@ def run_one(params, ch):
         chunks = partition(data, idx)
     dest = {'shell': b'shell:c', 'exec_out': b'exec:c', 'streaming_shell': b'shell:c', 'root': b'root:'}[api]
     cfg = {'shell': {dest: chunks}, 'clse': clse, 'maxdata': params.get('maxdata', 1024 * 1024)}
+    if params.get('policy'):
+        cfg['frag_policy'] = params['policy']
     s = Session(ch, cfg, twin=twin, frag=frag)
     try:
         s.op(('connect',))
@@ -224,7 +226,11 @@ def parts(tier):
                 for t in twins:
                     big.append({'data': pay + b'\x81\x82z', 'chunks': [pay, b'\x81\x82z'], 'api': a, 'decode': True, 'twin': t, 'clse': 'after-ack', 'maxdata': md})
     out.append(Part('maxdata-payloads', big, run_one, what='payload sizes 1, maxdata-1, maxdata for maxdata 4096 and 1 MiB', bound='%d cases' % len(big)))
-    iso = [{'twin': t, 'api': a, 'decode': d, 'clse': c, 'nother': n} for t in twins for a in apis for d in (True, False) for c in ('after-ack', 'eager') for n in (3, 1)]
+    pol = [{'data': d, 'api': a, 'decode': dec, 'twin': t, 'clse': 'after-ack', 'policy': p} for d in strings(2)[10:40] for a in apis for dec in (True, False) for t in twins
+           for p in ('one', 'two', 'half', 'n-1', 'alt-empty-one') if len(d) >= 3]
+    out.append(Part('partitions-under-read-fragmentation', pol, run_one, {'partition': None}, what='all WRTE partitions under global bulk_read fragmentation policies (every payload reassembled from several reads)',
+                    bound='%d scenarios x all partitions' % len(pol)))
+    iso = [{'twin': t, 'api': a, 'decode': d, 'clse': c, 'nother': n, 'family': f} for t in twins for a in apis for d in (True, False) for c in ('after-ack', 'eager') for n in (3, 1) for f in (None, 'mirror')]
     out.append(Part('isolation', iso, run_iso, {'dev-order': None}, what='second live stream with bytes in flight, all device wire orders',
                     bound='all dev-order choices'))
     late = [{'twin': t, 'api': a, 'decode': d, 'clse': c, 'delay': dl, 'nlate': nl} for t in twins for a in apis for d in (True, False) for c in ('after-ack', 'eager')
